@@ -14,3 +14,37 @@ GridProp(
             "shape and kind depend on values only through the branches the executor forks on, so this is a for-all-values statement within the grid"],
     selftest=False,
 ).export(globals())
+
+_grid_main = main
+
+
+def main(tier, only=None):
+    """the grid check plus Engine D: shape arithmetic of the rule helpers for unbounded dimensions (CrossHair over a
+    shape-level model bound into the real helper code)"""
+    import os
+
+    os.environ["VF_EXTRA_RESULTS"] = "vf.shp.results"
+    os.environ["VF_TIER_CUR"] = tier
+    return _grid_main(tier, only=only)
+
+
+_grid_replay = replay
+
+
+def replay(path):
+    import json
+
+    with open(path) as f:
+        data = json.load(f)
+    cex = data.get("cex") or {}
+    if cex.get("mode") == "crosshair":
+        from ..ch import run as chrun
+
+        viol, info = chrun.replay(cex["module"], cex["func"], cex["args"])
+        print("replay %s.%s%r: %s" % (cex["module"], cex["func"], tuple(cex["args"] or ()), info))
+        if viol:
+            print("VIOLATION property=C05 replay=%s" % path)
+            return 1
+        print("does not reproduce on the current tree")
+        return 0
+    return _grid_replay(path)
